@@ -601,7 +601,7 @@ def scheduled_run(chk, progs, plan, mode, rng=None, commit_points=False,
     return res
 
 
-def free_run(chk, progs, timeout=90):
+def free_run(chk, progs, timeout=45):
     """ unscheduled run with real blocking -> list of op dicts or error """
     root = tempfile.mkdtemp(prefix='c19free_', dir=chk.work)
     pids, fds = [], []
@@ -718,6 +718,19 @@ Definition run_lin (h : list hev) : jv := JB (lin_check h).
 """
 
 
+# regression corpus: D7 (unset must remove the value and not raise; key '0'
+# is the one key for which the pinned `del db[key]` happened to work),
+# unset of a never-set key, overwrite, bulk_set then single unset
+FIXED_SEQ = [
+    [('set', 1, 5), ('unset', 1), ('get', 1)],
+    [('set', 0, 5), ('unset', 0), ('get', 0), ('unset', 0)],
+    [('unset', 2), ('get', 2), ('set', 2, 3), ('get', 2)],
+    [('set', 1, 5), ('set', 1, 6), ('get', 1), ('get', 2)],
+    [('bulk', [(1, 4), (2, 5)]), ('unset', 1), ('get', 1), ('get', 2),
+     ('bulk', []), ('get', 2)],
+]
+
+
 def sequential(chk):
     from searchkit.utils import MPCacheSimple
     rng = chk.rng
@@ -730,6 +743,8 @@ def sequential(chk):
             keys = rng.sample([0, 1, 2], nk)
             prog = gen_prog(rng, rng.choice([1, 2, 3, 4, 6, 8, 10]), keys,
                             [1, 2, 3, 4, 5, 6, 7, 8, 9])
+            if c < len(FIXED_SEQ):
+                prog = FIXED_SEQ[c]
             root = os.path.join(d, f"r{c}")
             os.mkdir(root)
             cache = MPCacheSimple('c19', 'verif', root)
@@ -815,13 +830,13 @@ def plan_runs(chk):
     allint = list(interleavings([6, 6]))
     for (a, b, keys) in EXH_PROGRAMS:
         if chk.quick:
-            sel = rng.sample(allint, 50)
+            sel = rng.sample(allint, 80)
         else:
             sel = allint
         for pl in sel:
             plans.append(([a, b], pl, 'segment', keys))
     # random fine-grained schedules
-    nrand = 260 if chk.quick else 600
+    nrand = 400 if chk.quick else 600
     for c in range(nrand):
         if chk.quick:
             nproc = rng.choice([2, 2, 3, 3, 4])
@@ -1029,7 +1044,7 @@ def stress(chk):
         if err:
             chk.violation(f"stress {err[0]}", dict(info, error=err),
                           witness=True)
-            continue
+            break
         overl = sum(1 for a in ops for b in ops
                     if a['p'] < b['p'] and a['inv'] < b['res']
                     and b['inv'] < a['res'])
